@@ -382,7 +382,8 @@ func permutations(n int) [][]int {
 
 func domainVersions() []Ver {
 	var vs []Ver
-	for _, ts := range []uint64{0, 1, 2, 3, 1 << 62} {
+	// (1<<63)+3 lies 2^63 or more above the small stamps: a signed difference of two stamps wraps there (seed C02j)
+	for _, ts := range []uint64{0, 1, 2, 3, 1 << 62, 1<<63 + 3} {
 		for _, v := range []Ver{{Val: ""}, {Val: "a"}, {Val: "b"}, {Val: "ab"}, {Del: true}} {
 			v.TS = ts
 			vs = append(vs, v)
